@@ -13,5 +13,9 @@ func controlsC08() []Control {
 		{Name: "delay helper never runs the handler", Expect: "R3", Mutate: replaceIn("(*tableEngine).delay", "err = fn()", "_ = fn", 0)},
 		{Name: "open-game callback drops while pausing", Expect: "R4", Mutate: replaceIn("(*tableEngine).CreateTable", "// 大於一個人，開局\n", "if te.table.State.Status == TableStateStatus_TablePausing {\n\t\t\t\treturn\n\t\t\t}\n", 0)},
 		{Name: "pause decision taken when the continue step starts, not when the interval elapses", Expect: "R1", Mutate: replaceBoth("(*tableEngine).continueGame", "\t\tnextMoveInterval = te.options.GameContinueInterval\n", "\t\tshouldPause := te.table.ShouldPause()\n\t\tnextMoveInterval = te.options.GameContinueInterval\n", "if te.table.ShouldPause() {", "if shouldPause {")},
+		{Name: "settle step stops listing the survivors", Expect: "R5", Mutate: replaceIn("(*tableEngine).settleGame", "alivePlayers = append(alivePlayers, playerState)", "_ = playerState", 0)},
+		{Name: "survivors include players left with nothing", Expect: "R5", Mutate: replaceIn("(*tableEngine).settleGame", "if playerState.Bankroll > 0 {\n\t\t\talivePlayers", "if playerState.Bankroll >= 0 {\n\t\t\talivePlayers", 0)},
+		{Name: "continue step handed a truncated survivor list", Expect: "R5", Mutate: replaceIn("(*tableEngine).onGameClosed", "te.continueGame(alivePlayers)", "te.continueGame(alivePlayers[:1])", 0)},
+		{Name: "set-up participants skip the first survivor", Expect: "R5", Mutate: replaceIn("(*tableEngine).continueGame", "for idx, player := range alivePlayers {", "for idx, player := range alivePlayers[1:] {", 0)},
 	}
 }
